@@ -48,7 +48,8 @@ ASSUMPTIONS = [
     "boundaries (the writer treats every non-BMP code point by the same arithmetic)",
     "DvMethod.get_source on a generated DEX is not driven (no DEX generator); Writer.visit_constant is called on a bare "
     "Writer instead",
-    "source files are UTF-8; a raw unpaired surrogate in a literal is counted as ill-formed (not storable in a file)",
+    "a raw unpaired surrogate in a literal denotes itself (UTF-16 input units); such texts cannot be stored in a source "
+    "file and are left out of the javac binding",
 ]
 MANIFEST = {
     "engine": "E1-product",
@@ -302,6 +303,10 @@ _JAVAC_HI_SURR_DEFECT = re.compile(r"\\u+[dD][89abAB][0-9a-fA-F]{2}\\(?!u+[dD][c
 def bind(acc, literals, what):
     """literals: distinct texts.  Model-valid ones are read by javac, model-invalid ones must be rejected by javac."""
     literals = sorted(set(literals))
+    unstorable = [l for l in literals if javalex.has_raw_unpaired_surrogate(l)]
+    if unstorable:
+        acc.count("javac_binding_excluded_raw_unpaired_surrogate", len(unstorable))
+        literals = [l for l in literals if not javalex.has_raw_unpaired_surrogate(l)]
     skip = [l for l in literals if _JAVAC_HI_SURR_DEFECT.search(l)]
     if skip:
         acc.count("javac_binding_excluded_known_javac_surrogate_defect", len(skip))
@@ -461,7 +466,7 @@ def finalize(ctx, acc):
         if got != want:
             acc.harness_error("lexer model self-test: %s read as %r, expected %r" % (lit, got, want))
     for lit in ('"\\u000a"', '"\\u000d"', '"\n"', '"\\u0022"', '"\\u005cu0041"', '"\\q"', '"\\u00"', '"a', 'a"', '"a"b"',
-                '"\\"', '"\ud800"', '"\\\n"'):
+                '"\\"', '"\\\n"'):
         try:
             got = R(lit)
             acc.harness_error("lexer model self-test: ill-formed %s accepted as %r" % (ascii(lit), got))
